@@ -98,6 +98,13 @@ func (l *listener) AcceptWithContext(ctx context.Context) (net.Conn, error) {
 		if err := l.connect(l.closeCtx); err != nil {
 			return nil, fmt.Errorf("connect: %w", err)
 		}
+
+		// If the listener was closed while reconnecting, the new session was
+		// never notified so close it rather than waiting for connections.
+		if l.closeCtx.Err() != nil {
+			_ = l.sess.Close()
+			return nil, ErrClosed
+		}
 	}
 }
 
